@@ -50,6 +50,15 @@ AnyVals(d) ==
            AnyOf(MapSA, [nil |-> FALSE, m |-> << <<[s |-> <<97>>], AnyOf(StrT, [s |-> <<>>])>>,
                                                   <<[s |-> <<98>>], AnyOf(MapSA, [nil |-> FALSE, m |-> << <<[s |-> <<99>>], AnyNil>> >>])>> >>])})
 
+\* the name with the case of its letters flipped, and with '_' inserted
+FlipCp(c) == IF \E s \in FF!FoldSets : c \in s
+             THEN LET s == CHOOSE x \in FF!FoldSets : c \in x IN
+                  \* the largest other member of the fold set (for k: the Kelvin sign)
+                  CHOOSE m \in s \ {c} : \A y \in s \ {c} : y <= m
+             ELSE IF c \in 97..122 THEN c - 32 ELSE IF c \in 65..90 THEN c + 32 ELSE c
+Flip(name) == [i \in 1..Len(name) |-> FlipCp(name[i])]
+Under(name) == IF name = <<>> THEN <<95>> ELSE <<name[1], 95>> \o Tail(name)
+
 RECURSIVE Values(_, _)
 Values(t, d) ==
     CASE t.k = "bool" -> {[b |-> FALSE], [b |-> TRUE]}
@@ -82,7 +91,14 @@ Values(t, d) ==
                                 {[nil |-> FALSE, m |-> MapPut(t.key, << <<Key1(t.key), x>> >>, Key2(t.key), y)] : x, y \in Values(t.e, 0)})
       [] t.k = "ptr" -> {[nil |-> TRUE]} \cup {[nil |-> FALSE, e |-> x] : x \in Values(t.e, d)}
       [] t.k = "any" -> AnyVals(d)
-      [] t.k = "struct" -> {[f |-> s] : s \in Product([i \in 1..Len(t.f) |-> Values(t.f[i].t, Dec(d))])}
+      [] t.k = "struct" ->
+            LET fbs == IF t.fb = <<>> THEN {[nil |-> TRUE, m |-> <<>>]}
+                       ELSE {[nil |-> TRUE, m |-> <<>>], [nil |-> FALSE, m |-> <<>>]}
+                            \cup {[nil |-> FALSE, m |-> << <<[s |-> <<122>>], x>> >>] : x \in Values(t.fb[1], 0)}
+                            \* a fallback entry named like the first field, and like it up to case
+                            \cup (IF t.f = <<>> THEN {} ELSE
+                                  {[nil |-> FALSE, m |-> << <<[s |-> nm], x>> >>] : nm \in {t.f[1].name, Flip(t.f[1].name)}, x \in Values(t.fb[1], 0)}) IN
+            {[f |-> s, fb |-> fb] : s \in Product([i \in 1..Len(t.f) |-> Values(t.f[i].t, Dec(d))]), fb \in fbs}
 
 \* ---- JSON inputs
 N(lit) == [t |-> "num", lit |-> lit]
@@ -90,15 +106,6 @@ S(s) == [t |-> "str", s |-> s]
 B(x) == [t |-> "bool", b |-> x]
 Arr(e) == [t |-> "arr", e |-> e]
 Obj(m) == [t |-> "obj", m |-> m]
-
-\* the name with the case of its letters flipped, and with '_' inserted
-FlipCp(c) == IF \E s \in FF!FoldSets : c \in s
-             THEN LET s == CHOOSE x \in FF!FoldSets : c \in x IN
-                  \* the largest other member of the fold set (for k: the Kelvin sign)
-                  CHOOSE m \in s \ {c} : \A y \in s \ {c} : y <= m
-             ELSE IF c \in 97..122 THEN c - 32 ELSE IF c \in 65..90 THEN c + 32 ELSE c
-Flip(name) == [i \in 1..Len(name) |-> FlipCp(name[i])]
-Under(name) == IF name = <<>> THEN <<95>> ELSE <<name[1], 95>> \o Tail(name)
 
 IntInputs(t, d) ==
     {N(<<48>>), N(<<49>>), N(<<45, 49>>), N(<<49, 46, 48>>), S(<<49>>)}
@@ -192,7 +199,7 @@ RECURSIVE HasAny(_), HasOmitEmpty(_), HasOmit(_)
 HasAny(t) ==
     \/ t.k = "any"
     \/ t.k \in {"slice", "array", "ptr", "map"} /\ HasAny(t.e)
-    \/ t.k = "struct" /\ \E i \in 1..Len(t.f) : HasAny(t.f[i].t)
+    \/ t.k = "struct" /\ ((\E i \in 1..Len(t.f) : HasAny(t.f[i].t)) \/ (t.fb # <<>> /\ HasAny(t.fb[1])))
 HasOmit(t) ==
     \/ t.k \in {"slice", "array", "ptr", "map"} /\ HasOmit(t.e)
     \/ t.k = "struct" /\ \E i \in 1..Len(t.f) : t.f[i].omitempty \/ t.f[i].omitzero \/ HasOmit(t.f[i].t)
@@ -206,10 +213,25 @@ HasFolding(t) ==
     \/ t.k \in {"slice", "array", "ptr", "map"} /\ HasFolding(t.e)
     \/ t.k = "struct" /\ \E i \in 1..Len(t.f) : t.f[i].casing = 1 \/ HasFolding(t.f[i].t)
 
+\* no entry of an embedded fallback is named like a field of its struct (such an entry is written
+\* when the field is omitted, and read back into the field)
+RECURSIVE CleanFB(_, _)
+CleanFB(t, v) ==
+    CASE t.k \in {"slice", "array"} -> \A i \in 1..Len(v.e) : CleanFB(t.e, v.e[i])
+      [] t.k = "map" -> \A i \in 1..Len(v.m) : CleanFB(t.e, v.m[i][2])
+      [] t.k = "ptr" -> v.nil \/ CleanFB(t.e, v.e)
+      [] t.k = "any" -> v.nil \/ CleanFB(v.dt, v.e)
+      [] t.k = "struct" ->
+            /\ \A i \in 1..Len(t.f) : CleanFB(t.f[i].t, v.f[i])
+            /\ t.fb # <<>> => \A k \in 1..Len(v.fb.m) :
+                    /\ \A i \in 1..Len(t.f) : FF!Fold(t.f[i].name) # FF!Fold(v.fb.m[k][1].s)
+                    /\ CleanFB(t.fb[1], v.fb.m[k][2])
+      [] OTHER -> TRUE
+
 ParseRender == (ph = "case" /\ mode = "m") =>
     LET j == Marshal(T, a, MO, NoSt) IN ~IsErr(j) => ParseJ(Render(j)) = j
 
-RoundTrip == (ph = "case" /\ mode = "m") =>
+RoundTrip == (ph = "case" /\ mode = "m" /\ CleanFB(T, a)) =>
     LET j == Marshal(T, a, MO, NoSt) IN
     ~IsErr(j) =>
         LET u == UnmarshalJ(T, Zero(T), j, MO) IN
